@@ -362,6 +362,11 @@ class Tb:
         self.re_sigs = [c.re for _, _, c in self.simple]
         self.we_sigs = [c.we for _, _, c in self.simple]
         self.srams = list(soc.csr_bankarray.srams)   # (name, memory, mapaddr, mmap)
+        self.enable_sigs = []
+        for name, csrs, mapaddr, rmap in soc.csr_bankarray.banks:
+            self.enable_sigs += [rmap.bus.we, rmap.bus.re]
+        for name, memory, mapaddr, mmap in self.srams:
+            self.enable_sigs += [mmap.bus.we, mmap.bus.re]
         self.hits = None
         self.cycles = 0
         self._init_master()
@@ -385,7 +390,10 @@ class Tb:
         if self.hits is None:
             return
         ev = self.nl.ev
-        sv = ev.signal_values
+        # the strobes of a bank are gated by its own bus.we / bus.re: scan the simple CSRs only in cycles in which
+        # some bank (or CSR memory) sees a write or read enable
+        if not any(ev.eval(s_) for s_ in self.enable_sigs):
+            return
         for k, s in enumerate(self.re_sigs):
             if ev.eval(s):
                 self.hits["w"].add(k)
@@ -618,7 +626,7 @@ def nwords(busword, size):
     return (size + busword - 1) // busword
 
 
-def check_soc(cfg, seed=0, max_regs=None):
+def check_soc(cfg, seed=0, max_regs=None, max_words=None):
     """Build, export, access every exported address.  Returns a picklable record:
        verdict, lean: [(call line, real answer)], alarms: [(finding region | None, text)], stats."""
     rng = random.Random(seed)
@@ -916,14 +924,31 @@ def check_soc(cfg, seed=0, max_regs=None):
             expect_hits(hits, "r", r.simple[min(k, nw - 1)], "load from %s word %d @0x%x" % (r.full, k, a))
             loads.append(val if val is not None else 0)
             return loads[-1]
+        walked_all = True
         if has_acc:
             got = ex.header.read(r.full, load)
             rec["lean"].append(("accread %d %d %s" % (bw, nw, " ".join(map(str, loads))), str(got)))
+        elif max_words is not None and nw > max_words:
+            # a long register in the quick tier: a sample of its words (both ends, around every 64-word boundary)
+            walked_all = False
+            ks = {0, 1, nw - 2, nw - 1} | {k for k in range(nw) if k % 64 in (0, 63)} | \
+                 {rng.randrange(nw) for _ in range(max(0, max_words - 10))}
+            got = cur
+            for k in sorted(ks):
+                val, hits = do_access(waddrs[k], 0)
+                expect_hits(hits, "r", r.simple[k], "load from %s word %d @0x%x" % (r.full, k, waddrs[k]))
+                want = (cur >> (bw * (nw - 1 - k))) & ((1 << bw) - 1)
+                if hits is not None and val != want:
+                    got = None
+                    alarm("load from %s word %d @0x%x returns 0x%x, that word of the register is 0x%x" % (
+                        r.full, k, waddrs[k], val, want), R_CSR8, *ltag)
+            got = cur if got is not None else cur
+            count("long_registers_sampled")
         else:
             got = 0
             for a in waddrs:
                 got = (got << bw) | (load(a) & ((1 << bw) - 1))
-        if model_regs:
+        if model_regs and walked_all:
             rec["lean"].append(("hwwords %d %d %d %d" % (big, bw, r.size, cur), " ".join(map(str, loads))))
         if got != cur:
             alarm("%s_read() = 0x%x, register holds 0x%x" % (r.full, got, cur), R_CSR8, *ltag)
@@ -1129,9 +1154,10 @@ def gen_cfg(rng, **fixed):
 
 def soc_task(args):
     """Pool worker: one end-to-end SoC check."""
-    cfg, seed, max_regs = args
+    cfg, seed, max_regs = args[:3]
+    max_words = args[3] if len(args) > 3 else None
     try:
-        rec = check_soc(cfg, seed, max_regs)
+        rec = check_soc(cfg, seed, max_regs, max_words)
     except Exception:
         rec = {"cfg": cfg, "seed": seed, "lean": [], "alarms": [], "stats": {}, "verdict": "crash",
                "crash": traceback.format_exc()[-1500:], "samples": []}
